@@ -54,7 +54,19 @@ def child_env(th):
     return env
 
 
-def run_worker(args, env, timeout=None):
+def run_worker(args, env, timeout=None, slot=None):
+    """Every worker gets a PRIVATE numba cache dir (numba's on-disk cache is not safe when several processes
+    first-compile different signatures of one function concurrently), seeded from the persistent per-tree,
+    per-property cache that only ever is written by one finished worker (atomic rename)."""
+    env = dict(env)
+    if slot is not None:
+        priv = os.path.join(env["VERIF_SCRATCH"], f"numba-{slot}")
+        seed_dir = env["VERIF_NUMBA_PERSIST"]
+        if os.path.isdir(seed_dir):
+            shutil.copytree(seed_dir, priv, dirs_exist_ok=True)
+        else:
+            os.makedirs(priv, exist_ok=True)
+        env["NUMBA_CACHE_DIR"] = priv
     return subprocess.Popen([sys.executable, "-m", "vf.shard"] + args, env=env, cwd=HERE,
                             stdout=subprocess.DEVNULL if not os.environ.get("VERIF_DEBUG") else None,
                             stderr=subprocess.DEVNULL if not os.environ.get("VERIF_DEBUG") else None)
@@ -116,6 +128,7 @@ def main(argv=None):
     shutil.rmtree(run_dir, ignore_errors=True)
     os.makedirs(run_dir)
     env["VERIF_SCRATCH"] = run_dir
+    env["VERIF_NUMBA_PERSIST"] = os.path.join(WORK, "numba", th, prop)
     try:
         rc = _main(a, prop, seed, env, run_dir, t0)
     finally:
@@ -131,7 +144,7 @@ def _main(a, prop, seed, env, run_dir, t0):
     # ---- single replay -------------------------------------------------------------------------
     if a.replay:
         out = os.path.join(run_dir, "replay.json")
-        p = run_worker(["--prop", prop, "--out", out, "--replay", os.path.abspath(a.replay)], env)
+        p = run_worker(["--prop", prop, "--out", out, "--replay", os.path.abspath(a.replay)], env, slot="r")
         p.wait()
         res = read_json(out)
         if not res or not res.get("ok"):
@@ -153,7 +166,7 @@ def _main(a, prop, seed, env, run_dir, t0):
     replays = []
     if files:
         out = os.path.join(run_dir, "replays.json")
-        p = run_worker(["--prop", prop, "--out", out, "--replay"] + files, env)
+        p = run_worker(["--prop", prop, "--out", out, "--replay"] + files, env, slot="r")
         p.wait()
         res = read_json(out)
         if not res or not res.get("ok"):
@@ -189,7 +202,7 @@ def _main(a, prop, seed, env, run_dir, t0):
                 "--nshards", str(nshards), "--out", out]
         if a.only:
             args += ["--only", a.only]
-        procs.append((i, out, run_worker(args, env)))
+        procs.append((i, out, run_worker(args, env, slot=i)))
     shard_res = []
     harness_errors = []
     for i, out, p in procs:
@@ -201,6 +214,13 @@ def _main(a, prop, seed, env, run_dir, t0):
             harness_errors.append(f"shard {i}: {res.get('error')}")
         else:
             shard_res.append(res)
+    persist = env["VERIF_NUMBA_PERSIST"]
+    if not os.path.isdir(persist) and not harness_errors:
+        try:
+            os.makedirs(os.path.dirname(persist), exist_ok=True)
+            os.rename(os.path.join(run_dir, "numba-0"), persist)
+        except OSError:
+            pass
     if harness_errors:
         for h in harness_errors[:3]:
             print("HARNESS-ERROR", h)
